@@ -294,6 +294,62 @@ def build():
         ctx.check("the stopped application is gone", 0 not in ex._qubit_unit_modules)
     R.add("inv[stop_application interleaved with another application's allocations]", kind="lia", samples=40, max_paths=400)(stop_interleaved)
 
+    # ------------------------------------------------------------- short histories, exhaustively (bounded stand-in)
+    def histories(ctx):
+        """every sequence of up to L operations (qalloc / qfree by two applications, keep-responses delivering a physical qubit
+        that is unused at that moment) on a fresh real executor; the representation invariant is checked after every step.
+        State that an implementation keeps beside the unit modules (caches, free lists) is exercised by construction."""
+        import itertools
+        from netqasm.backend.executor import Executor as _E
+        L = 5 if ctx.tier == "thorough" else 4
+        ops = [("qalloc", a, v) for a in (0, 1) for v in (0, 1)] + [("qfree", a, v) for a in (0, 1) for v in (0, 1)] + \
+              [("keep", a, v, p) for a in (0, 1) for v in (0, 1) for p in (0, 1, 2)]
+        given = ctx.given.get("history") if getattr(ctx, "given", None) else None
+        seqs = [[tuple(int(x) if x.lstrip("-").isdigit() else x for x in o.split(":")) for o in given.split(",")]] if given else itertools.product(ops, repeat=L)
+        n = 0
+        for seq in seqs:
+            n += 1
+            ex = new_executor(ctx, apps=(0, 1), um_sizes={0: 2, 1: 2})
+            sids = {0: SID, 1: SID_OTHER}
+            ex._subroutines[SID] = Subroutine(app_id=0)
+            ex._subroutines[SID_OTHER] = Subroutine(app_id=1)
+            bad = None
+            for k, op in enumerate(seq):
+                um = {a: list(ex._qubit_unit_modules[a]) for a in (0, 1)}
+                used = set(ex._used_physical_qubit_addresses)
+                try:
+                    if op[0] == "qalloc":
+                        ex._allocate_physical_qubit(sids[op[1]], op[2])
+                    elif op[0] == "qfree":
+                        list(ex._free_physical_qubit(sids[op[1]], op[2]) or [])
+                    else:
+                        if op[3] in used:
+                            continue        # the link layer only delivers qubits that are free at that moment
+                        data = EprCmdData(subroutine_id=sids[op[1]], ent_results_array_address=0, q_array_address=5, request=None, tot_pairs=1, pairs_left=1)
+                        ex._app_arrays[op[1]]._arrays[5] = [op[2]]
+                        ex._handle_epr_ok_k_response(data, LinkLayerOKTypeK(logical_qubit_id=op[3], purpose_id=0, remote_node_id=1, bell_state=BellState.PHI_PLUS), 0)
+                except Exception:
+                    # a refused operation leaves the qubit bookkeeping as it was
+                    if {a: list(ex._qubit_unit_modules[a]) for a in (0, 1)} != um or set(ex._used_physical_qubit_addresses) != used:
+                        bad = (k, "a refused operation changed the bookkeeping")
+                        break
+                mapped = [p for a in (0, 1) for p in ex._qubit_unit_modules[a] if p is not None]
+                if len(set(mapped)) != len(mapped):
+                    bad = (k, f"two virtual qubits share a physical qubit: {ex._qubit_unit_modules}")
+                    break
+                if set(mapped) != set(ex._used_physical_qubit_addresses):
+                    bad = (k, f"in-use set {sorted(ex._used_physical_qubit_addresses)} != mapped set {sorted(mapped)}")
+                    break
+            if bad:
+                ctx.used["history"] = ",".join(":".join(str(x) for x in o) for o in seq)
+                ctx.used["why"] = f"after step {bad[0]}: {bad[1]}"
+                ctx.check("the representation invariant holds after every step of every short history", False)
+                return
+        ctx.used["histories"] = n
+        ctx.check("the representation invariant holds after every step of every short history", True)
+    R.add("inv[all short histories of qalloc / qfree / keep-response]", kind="bounded", bounded_only=True, samples=1,
+          note="exhaustive over all sequences of 4 (quick) / 5 (thorough) operations from 20 on 2 applications x 2 virtual qubits x physical ids 0..2, real executor, native")(histories)
+
     def double_registration(ctx):
         ex = new_executor(ctx, apps=(0,))
         out = ctx.attempt(ex.init_new_application, 0, 2)
